@@ -26,8 +26,17 @@ def run_points(case):
     idx = torch.arange(n, dtype=torch.float32)
     xin = tp.spaces.Points(torch.stack([idx, idx + 0.5], dim=1), X)
     yout = tp.spaces.Points((idx * 2 + 1).reshape(-1, 1), U)
+    given = (xin.as_tensor.clone(), yout.as_tensor.clone())
     loader = tp.utils.PointsDataLoader((xin, yout), batch_size=bs, shuffle=bool(shuffle), drop_last=bool(drop))
     batches, problems, seen = [], [], []
+    if (n + bs) % 3 == 0:
+        # a second, shuffling loader over the same user Points, built and read before the first one is iterated
+        for xb2, yb2 in tp.utils.PointsDataLoader((xin, yout), batch_size=bs, shuffle=True):
+            if any(2 * a + 1 != c for a, c in zip(xb2.as_tensor[:, 0].tolist(), yb2.as_tensor[:, 0].tolist())):
+                problems.append("second loader built from the same Points: pairing broken")
+                break
+    if not (torch.equal(given[0], xin.as_tensor) and torch.equal(given[1], yout.as_tensor)):
+        problems.append("constructing / reading a loader changed the user's Points in place")
     for b in loader:
         xb, yb = b
         xs = xb.as_tensor[:, 0].tolist()
@@ -118,9 +127,27 @@ def run_deeponet(case):
         trunk = torch.stack([fi.reshape(nB, 1).repeat(1, nT), xi.reshape(1, nT).repeat(nB, 1)], dim=-1)
     else:
         trunk = torch.stack([xi, xi + 0.5], dim=-1)
+    given = [t_.clone() for t_ in (branch, trunk, out)]
     loader = tp.utils.DeepONetDataLoader(branch, trunk, out, F, X, U, bB, bT,
                                          shuffle_branch=bool(case["shB"]), shuffle_trunk=bool(case["shT"]))
     problems, batches, pairs = [], [], set()
+    other = None
+    if (nB * 3 + nT + case["shT"]) % 3 == 0:
+        # a second loader (e.g. for validation) built from the SAME user tensors with shuffling on, before the first one is
+        # iterated: neither construction may disturb the user's data or the other loader
+        other = tp.utils.DeepONetDataLoader(branch, trunk, out, F, X, U, bB, bT, shuffle_branch=True, shuffle_trunk=True)
+    for name_, a_, b_ in zip(("branch_data", "trunk_data", "output_data"), given, (branch, trunk, out)):
+        if not torch.equal(a_, b_):
+            problems.append(f"constructing the loader(s) changed the user's {name_} tensor in place")
+    if other is not None:
+        for k2, (bb2, tb2, ob2) in enumerate(other):
+            f2 = [int(v) for v in bb2.as_tensor[:, 0, 0].tolist()]
+            t2 = tb2.as_tensor
+            x2 = [int(v) for v in (t2[:, 0] if t2.dim() == 2 else t2[0, :, 0 if same else 1]).tolist()] if t2.shape[0] else []
+            o2 = ob2.as_tensor
+            if tuple(o2.shape[:2]) == (len(f2), len(x2)) and any(int(o2[i_, j_, 0]) != f_ * BIG + x_ for i_, f_ in enumerate(f2) for j_, x_ in enumerate(x2)):
+                problems.append(f"second loader built from the same tensors, batch {k2}: an output entry is not the datum of its function and location")
+                break
     # every fourth configuration: a second pass over the same loader is started after the first batch and runs interleaved
     second = iter(loader) if (nB + nT + abs(bB) + case["shB"]) % 4 == 0 else None
     pairs2 = set()
@@ -229,6 +256,13 @@ def run_fold(case):
     else:
         loader = tp.utils.PointsDataLoader((xin, yout), batch_size=case["bs"], shuffle=False, drop_last=bool(case["drop"]))
     cond = tp.conditions.DataCondition(First(), loader, norm=case["norm"], root=float(case.get("root", 1)), use_full_dataset=True)
+    if case.get("swap"):
+        # the same condition object evaluated once on another loader (other batch size) first, then given this loader:
+        # the aggregate is that of the loader in force at the call
+        bs0 = case["bs"] % len(xs) + 1
+        cond.dataloader = tp.utils.PointsDataLoader((xin, yout), batch_size=bs0, shuffle=False, drop_last=False)
+        float(cond.forward())
+        cond.dataloader = loader
     val = float(cond.forward())
     # batches as the loader delivers them (already validated by the `pts` correspondence)
     bs = case["bs"]
@@ -360,7 +394,8 @@ def gen_cases(ctx):
         n = rng.randint(1, 14)
         cases.append(dict(kind="fold", x=[rng.randint(-40, 40) for _ in range(n)], y=[rng.randint(-40, 40) for _ in range(n)],
                           bs=rng.randint(1, n + 2), drop=rng.randint(0, 1), norm=rng.choice(["inf", 1, 2, 2, 3]),
-                          loader=rng.choice(["points", "points", "torch"]), root=rng.choice([1, 1, 2, 3]), scale=rng.choice([0, 0, 10, 20])))
+                          loader=rng.choice(["points", "points", "torch"]), root=rng.choice([1, 1, 2, 3]), scale=rng.choice([0, 0, 10, 20]),
+                          swap=rng.choice([0, 0, 1])))
     for _ in range(ctx.scale(100, 1000)):
         nB, nT = rng.randint(1, 7), rng.randint(1, 7)
         cases.append(dict(kind="fold", loader="deeponet", layout=rng.choice(["shared", "unique"]), nB=nB, nT=nT,
@@ -463,6 +498,8 @@ def judge(rep, case, res, model_reply):
     else:
         rep.count(f"fold:{case['norm']}")
         rep.count(f"fold-loader:{case.get('loader', 'points')}")
+        if case.get("swap"):
+            rep.count("fold:second-evaluation-after-the-loader-was-replaced")
         ref = res["ref"]
         if common.unq(model_reply) != ref:
             rep.disagree("full-data-set fold: drivers/C16.lean fold vs reference reduction", case, str(ref), model_reply)
